@@ -22,6 +22,7 @@ struct CaseTally
     long long cases = 0, transitions = 0;
     long long cls_order[4] = {0, 0, 0, 0};
     long long lock_exact = 0, lock_near = 0, grid_lock = 0, grid_generic = 0, translated = 0;
+    long long reused[3] = {0, 0, 0}, reused_euler = 0;
     double    w_build = 0, w_quat = 0, w_quatmat = 0, w_rebuild = 0, w_rebuildq = 0, w_xyz = 0, w_zyx = 0, w_ortho = 0;
 };
 
@@ -100,12 +101,67 @@ template <class T> struct CaseChecker
             LD dl = ref::maxdiff (ref::fromLib<3> (s), L3);
             if (!(dl <= 16 * eps)) R ().fail ("Euler(XYZ)::toMatrix44.vs-Matrix44::setEulerAngles", in (), "<= 16 eps", ref::fmtE (dl / eps) + " eps");
             t.transitions += 2;
+            // "XYZ order agrees with Matrix44::setEulerAngles" is a statement about the whole 4x4 matrix that
+            // M.setEulerAngles(a) leaves in M, for whatever M held before (seed C11-v1: setEulerAngles is a set* member that is
+            // called on existing objects; a builder writing only the rotation block agrees with toMatrix44() on a fresh
+            // identity and nowhere else):
+            //  * fourth row / column of the fresh result: equal to those of Euler(XYZ).toMatrix44() (exact: (0,0,0,1));
+            //  * the same call on an object pre-filled, in EVERY slot, with distinct primes / sign-flipped transposed primes /
+            //    NaN must leave BITWISE the matrix it leaves in the fresh object (the result is a function of the angles
+            //    only; same deterministic IEEE operation sequence, so no tolerance), and that matrix must agree with
+            //    toMatrix44() in all 16 entries (block to the same 16 eps as above, the rest exactly).
+            bool hom = true;
+            for (int i = 0; i < 4; ++i) hom = hom && s[i][3] == m4[i][3] && s[3][i] == m4[3][i];
+            if (!hom) R ().fail ("Euler(XYZ)::toMatrix44.vs-Matrix44::setEulerAngles.homogeneous-part", in (), ref::fmtLib<4> (m4), ref::fmtLib<4> (s));
+            static const char* FILLN[3] = {"every slot a distinct prime 100+p_k", "every slot -+(100+p_k), transposed", "every slot NaN"};
+            for (int kind = 0; kind < 3; ++kind)
+            {
+                Matrix44<T> sd;
+                for (int i = 0; i < 4; ++i)
+                    for (int j = 0; j < 4; ++j)
+                        sd[i][j] = kind == 0 ? (T) (100 + ex::PRIMES[i * 4 + j]) : kind == 1 ? (T) ((((i + j) & 1) ? 1 : -1) * (100 + ex::PRIMES[j * 4 + i])) : std::numeric_limits<T>::quiet_NaN ();
+                sd.setEulerAngles (Vec3<T> (a0, a1, a2));
+                ++t.reused[kind];
+                bool same = true, agree = true;
+                for (int i = 0; i < 4; ++i)
+                    for (int j = 0; j < 4; ++j)
+                    {
+                        same = same && ex::same (sd[i][j], s[i][j]);
+                        if (i < 3 && j < 3) agree = agree && fabsl ((LD) sd[i][j] - (LD) m4[i][j]) <= 16 * eps;
+                        else agree = agree && sd[i][j] == m4[i][j];
+                    }
+                if (!same) R ().fail ("Matrix44::setEulerAngles.result-depends-on-previous-contents", in () + " previous contents: " + FILLN[kind], "the matrix the same call leaves in a fresh Matrix44: " + ref::fmtLib<4> (s), ref::fmtLib<4> (sd));
+                if (!agree) R ().fail ("Euler(XYZ)::toMatrix44.vs-Matrix44::setEulerAngles.reused-object", in () + " previous contents: " + FILLN[kind], "all 16 entries (block to 16 eps): " + ref::fmtLib<4> (m4), ref::fmtLib<4> (sd));
+                t.transitions += 2;
+            }
         }
 
         // ---- extraction: 3x3 and 4x4 copies, constructors, rebuild
         E x3 (ord), x4 (ord);
         x3.extract (m3);
         x4.extract (m4);
+        // extract() sets all three angles from its argument and the order of the object: an Euler object that already holds
+        // angles (generic primes, NaN) must end bitwise equal to a fresh one of the same order
+        {
+            const T nan = std::numeric_limits<T>::quiet_NaN ();
+            for (int kind = 0; kind < 2; ++kind)
+            {
+                E d3 = kind ? E (nan, nan, nan, ord) : E ((T) 103, (T) -107, (T) 109, ord), d4 (d3), dq (d3), fq (ord);
+                d3.extract (m3);
+                d4.extract (m4);
+                dq.extract (q);
+                fq.extract (q);
+                ++t.reused_euler;
+                auto prev = [&] () { return in () + (kind ? " previous angles: NaN" : " previous angles: (103,-107,109)"); };
+                if (!(ex::same (d3.x, x3.x) && ex::same (d3.y, x3.y) && ex::same (d3.z, x3.z) && d3.order () == ord))
+                    R ().fail ("Euler::extract(Matrix33).result-depends-on-previous-angles", prev (), vf::Msg () << x3.x << " " << x3.y << " " << x3.z, vf::Msg () << d3.x << " " << d3.y << " " << d3.z);
+                if (!(ex::same (d4.x, x4.x) && ex::same (d4.y, x4.y) && ex::same (d4.z, x4.z) && d4.order () == ord))
+                    R ().fail ("Euler::extract(Matrix44).result-depends-on-previous-angles", prev (), vf::Msg () << x4.x << " " << x4.y << " " << x4.z, vf::Msg () << d4.x << " " << d4.y << " " << d4.z);
+                if (!(ex::same (dq.x, fq.x) && ex::same (dq.y, fq.y) && ex::same (dq.z, fq.z) && dq.order () == ord))
+                    R ().fail ("Euler::extract(Quat).result-depends-on-previous-angles", prev (), vf::Msg () << fq.x << " " << fq.y << " " << fq.z, vf::Msg () << dq.x << " " << dq.y << " " << dq.z);
+                t.transitions += 3;
+            }
+        }
         if (!(ex::same (x3.x, x4.x) && ex::same (x3.y, x4.y) && ex::same (x3.z, x4.z)))
             R ().fail ("Euler::extract.Matrix33-vs-Matrix44-bitwise" + c, in (), vf::Msg () << x3.x << " " << x3.y << " " << x3.z, vf::Msg () << x4.x << " " << x4.y << " " << x4.z);
         if (x3.order () != ord || x4.order () != ord) R ().fail ("Euler::extract.keeps-order", in (), hex4 (O.value), hex4 ((int) x3.order ()) + "/" + hex4 ((int) x4.order ()));
@@ -218,6 +274,8 @@ inline void mergeTally (CaseTally& g, const CaseTally& l)
     for (int i = 0; i < 4; ++i) g.cls_order[i] += l.cls_order[i];
     g.lock_exact += l.lock_exact; g.lock_near += l.lock_near; g.grid_lock += l.grid_lock; g.grid_generic += l.grid_generic;
     g.translated += l.translated;
+    for (int i = 0; i < 3; ++i) g.reused[i] += l.reused[i];
+    g.reused_euler += l.reused_euler;
     g.w_build = std::max (g.w_build, l.w_build); g.w_quat = std::max (g.w_quat, l.w_quat); g.w_quatmat = std::max (g.w_quatmat, l.w_quatmat);
     g.w_rebuild = std::max (g.w_rebuild, l.w_rebuild); g.w_rebuildq = std::max (g.w_rebuildq, l.w_rebuildq);
     g.w_xyz = std::max (g.w_xyz, l.w_xyz); g.w_zyx = std::max (g.w_zyx, l.w_zyx); g.w_ortho = std::max (g.w_ortho, l.w_ortho);
@@ -233,6 +291,10 @@ template <class T> inline void publishTally (const CaseTally& g, const char* wha
     static const char* cn[4] = {"order.static-nonrepeated", "order.static-repeated", "order.rotating-nonrepeated", "order.rotating-repeated"};
     for (int i = 0; i < 4; ++i) R ().cls (cn[i], g.cls_order[i]);
     R ().cls ("extract.matrix44-with-translation-row", g.translated);
+    R ().cls ("setEulerAngles.reused-object.previous-contents-distinct-primes", g.reused[0]);
+    R ().cls ("setEulerAngles.reused-object.previous-contents-sign-flipped-transposed-primes", g.reused[1]);
+    R ().cls ("setEulerAngles.reused-object.previous-contents-NaN", g.reused[2]);
+    R ().cls ("extract.reused-Euler-object(previous-angles-primes-or-NaN)", g.reused_euler);
     if (std::string (what) == "grid")
     {
         R ().cls ("grid.middle-angle-exactly-at-lock", g.grid_lock);
